@@ -31,6 +31,15 @@ func (c *BlockAddress) String() string {
 
 // Type returns the type of the constant.
 func (c *BlockAddress) Type() types.Type {
+	// The address of a basic block is a pointer into the address space of the
+	// function containing the basic block.
+	if c.Func != nil {
+		if funcType, ok := c.Func.Type().(*types.PointerType); ok && funcType.AddrSpace != 0 {
+			typ := types.NewPointer(types.I8)
+			typ.AddrSpace = funcType.AddrSpace
+			return typ
+		}
+	}
 	return types.I8Ptr
 }
 
